@@ -450,6 +450,8 @@ fn case(tape: &[u16]) -> Case {
         match t.pick(40) {
             0 => inputs.push(Input { stdin: true, text: ["{\"a\": ", "nope", "{'a': 1}", "{\"a\": 1} x"][t.pick(4)].into(), valid: None, bad_utf8: false }),
             1 => inputs.push(Input { stdin: true, text: json::write(&v, 0), valid: None, bad_utf8: true }),
+            // a pipe that carries nothing but blanks / line breaks is "no piped inputs"
+            2 | 3 => inputs.push(Input { stdin: true, text: ["\n", "  \n", "\r\n", " \t \n\n"][t.pick(4)].into(), valid: Some(MV::Rec(vec![])), bad_utf8: false }),
             _ => inputs.push(Input { stdin: true, text: json::write(&v, t.pick(2) as u8), valid: Some(v), bad_utf8: false }),
         }
     }
@@ -543,6 +545,12 @@ pub fn run(ctx: &mut Ctx) {
         for mode in [0u8, 1] {
             let inputs: Vec<Input> = docs.iter().enumerate().map(|(i, d)| inp(first_on_stdin && i == 0, (*d).clone())).collect();
             fixed.push(Case { stmts: show(), inputs, mode, out_file: false, precreate: false, slow_stdin: None, no_final_newline: false });
+        }
+    }
+    // `echo | blots script`: blank stdin is not an input document
+    for text in ["\n", "   ", "\r\n\r\n"] {
+        for mode in [0u8, 1] {
+            fixed.push(Case { stmts: vec![Stmt::OutputBind("p".into(), Val::List(vec![Val::Hash("a".into()), Val::Lit(num(7.0))]))], inputs: vec![Input { stdin: true, text: text.into(), valid: Some(MV::Rec(vec![])), bad_utf8: false }, inp(false, obj(vec![("a", num(1.0))]))], mode, out_file: false, precreate: false, slow_stdin: None, no_final_newline: false });
         }
     }
     // slow producers: the piped inputs (or the -e script) arrive late and in pieces
